@@ -164,7 +164,13 @@ OPS['roundtrip'] = async (pol, js, enc, d, linesep, table) => {
 
 OPS['readboth'] = async (pol, enc, hdr, modi, d, comment, text) => {
     const data = Buffer.from(dec_str(text), enc == 'utf-8' ? 'utf-8' : 'binary');
-    return await read_result(make_stream(data.length ? [data] : []), null, enc, pol, hdr, modi, dec_str(d), comment == '~' ? null : dec_str(comment));
+    const cp = comment == '~' ? null : dec_str(comment);
+    const stream = await read_result(make_stream(data.length ? [data] : []), null, enc, pol, hdr, modi, dec_str(d), cp);
+    // the bulk reader (bulk_read option) is a third reader of the same file: it must agree too
+    const p = tmpfile('both.csv');
+    fs.writeFileSync(p, data);
+    const bulk = await read_result(null, p, enc, pol, hdr, modi, dec_str(d), cp);
+    return stream == bulk ? stream : `DIFF stream=[${stream.slice(0, 300)}] bulk=[${bulk.slice(0, 300)}]`;
 };
 
 OPS['readjsfile'] = async (pol, enc, hdr, modi, d, comment, text) => {
